@@ -10,6 +10,7 @@ def main (args : List String) : IO UInt32 := do
   | "C16" :: rest => Driver.C16.main rest; return 0
   | "C17q" :: rest => Driver.C17.mainQ rest; return 0
   | "C17lin" :: rest => Driver.C17.mainLin rest; return 0
+  | "C17race" :: rest => Driver.C17.mainLin rest; return 0
   | _ =>
     IO.eprintln "usage: hopmodel <Cxx> [--spec] < ops.txt > model.txt"
     return 2
